@@ -52,7 +52,7 @@ def run_demo(tname):
         rc, out = sh(f"ninja -C {B} -j8 2>&1 | tail -3")
         if rc != 0 or "FAILED" in out:
             return None
-        rc, out = sh(f"ctest --test-dir {B} -R '{pats}' --timeout 600 2>&1 | tail -8")
+        rc, out = sh(f"ctest --test-dir {B} -R '{pats}' --timeout 600 2>&1 | grep -E 'tests passed|Failed|Passed' | tail -12")
         m = re.search(r"(\d+)% tests passed, (\d+) tests failed out of (\d+)", out)
         if not m or int(m.group(3)) == 0:
             return None
